@@ -9,6 +9,7 @@ Ltac Zify.zify_post_hook ::= Z.to_euclidean_division_equations.
 
 (* the date part of tp_of_parts, as a function of its continuation *)
 Definition date_steps {A} (year mo day : Z) (K : Z -> outcome A) : outcome A :=
+  if year <? tmin I64 + 400 then Err OutOfRange else
   y <- arith I64 (year - (if mo <=? 2 then 1 else 0)) ;;
   let m := cast U32 mo in
   let d := cast U32 day in
@@ -23,24 +24,31 @@ Definition date_steps {A} (year mo day : Z) (K : Z -> outcome A) : outcome A :=
   hi <- cdiv I64 (tmax I64) 146097 ;;
   lo <- cdiv I64 (tmin I64) 146097 ;;
   if (hi <? era) || (era <? lo) then Err OutOfRange else
-  e1 <- arith I64 (era * 146097) ;;
   off <- arith I32 (cast I32 doe - 719468) ;;
+  e1 <- arith I64 (era * 146097) ;;
+  lim <- arith I64 (tmin I64 - off) ;;
+  if (off <? 0) && (e1 <? lim) then Err OutOfRange else
   days <- arith I64 (e1 + off) ;;
   K days.
 
+(* for every date whose day number fits int64 with the 719468 days of head room the era guard needs *)
 Lemma date_steps_ok {A} y m d (K : Z -> outcome A) :
-  -10000000000000000 <= y <= 10000000000000000 -> 1 <= m <= 12 -> 1 <= d <= 31 ->
+  -30000000000000000 <= y <= 30000000000000000 -> 1 <= m <= 12 -> 1 <= d <= 31 ->
+  -9223372036854775808 <= days_from_civil y m d <= 9223372036854775807 - 719468 ->
   date_steps y m d K = K (days_from_civil y m d).
 Proof.
-  intros Hy Hm Hd. unfold date_steps, days_from_civil. cbv zeta.
+  intros Hy Hm Hd HD. unfold date_steps. cbv zeta.
+  change (tmin I64 + 400) with (-9223372036854775408). replace (y <? -9223372036854775408) with false by lia.
   set (b := if m <=? 2 then 1 else 0). assert (Hb : 0 <= b <= 1) by (unfold b; destruct (m <=? 2); lia).
   rewrite arith_fits by fits_side. rewrite bind_ok.
   rewrite (cast_fits U32 m) by fits_side. rewrite (cast_fits U32 d) by fits_side.
-  set (y' := y - b) in *. assert (Hy' : -10000000000000001 <= y' <= 10000000000000000) by (unfold y'; lia).
+  set (y' := y - b) in *. assert (Hy' : -30000000000000001 <= y' <= 30000000000000000) by (unfold y'; lia).
   assert (Eera : (yy <- (if 0 <=? y' then Ok y' else arith I64 (y' - 399)) ;; cdiv I64 yy 400) = Ok (era_of_y y')).
   { unfold era_of_y, cdiv. change (400 =? 0) with false. cbv iota.
     destruct (0 <=? y') eqn:E; [|rewrite arith_fits by fits_side]; rewrite bind_ok, arith_fits by fits_side; reflexivity. }
   assert (Hera : era_of_y y' = y' / 400) by apply era_of_y_div.
+  (* the day number in terms of the quantities of this computation *)
+  assert (HDe : days_from_civil y m d = era_of_y y' * 146097 + (doe_of y' (era_of_y y') m d - 719468)) by reflexivity.
   set (era := era_of_y y') in *.
   transitivity (era0 <- Ok era ;;
     e4 <- arith I64 (era0 * 400) ;;
@@ -52,15 +60,17 @@ Proof.
     hi <- cdiv I64 (tmax I64) 146097 ;;
     lo <- cdiv I64 (tmin I64) 146097 ;;
     if (hi <? era0) || (era0 <? lo) then Err OutOfRange else
-    e1 <- arith I64 (era0 * 146097) ;;
     off <- arith I32 (cast I32 doe - 719468) ;;
+    e1 <- arith I64 (era0 * 146097) ;;
+    lim <- arith I64 (tmin I64 - off) ;;
+    if (off <? 0) && (e1 <? lim) then Err OutOfRange else
     days <- arith I64 (e1 + off) ;;
     K days).
   { rewrite <- Eera. destruct (0 <=? y'); [reflexivity|]. destruct (arith I64 (y' - 399)); reflexivity. }
   rewrite bind_ok. cbv zeta.
   rewrite arith_fits by fits_side. rewrite bind_ok.
   rewrite arith_fits by fits_side. rewrite bind_ok.
-  set (yoe := y' - era * 400). assert (Hyoe : 0 <= yoe <= 399) by (unfold yoe; lia).
+  set (yoe := y' - era * 400) in *. assert (Hyoe : 0 <= yoe <= 399) by (unfold yoe; lia).
   rewrite (cast_fits U32 yoe) by fits_side.
   set (mm := if 2 <? m then cast U32 (m - 3) else cast U32 (m + 9)).
   assert (Emm : mm = if 2 <? m then m - 3 else m + 9).
@@ -68,18 +78,25 @@ Proof.
   assert (Hmm : 0 <= mm <= 11) by (rewrite Emm; destruct (2 <? m) eqn:E; lia).
   clearbody mm.
   repeat match goal with |- context [cast U32 ?x] => rewrite (cast_fits U32 x) by fits_side end.
-  unfold cdiv. change (146097 =? 0) with false. cbv iota.
-  change (tmax I64) with 9223372036854775807. change (tmin I64) with (-9223372036854775808).
-  rewrite !arith_fits by fits_side. rewrite !bind_ok.
-  replace ((_ <? era) || (era <? _)) with false by lia.
   set (doe := yoe * 365 + yoe / 4 - yoe / 100 + ((153 * mm + 2) / 5 + d - 1)).
   assert (Hdoe : 0 <= doe <= 150000) by (unfold doe; lia).
+  assert (Edoe : doe_of y' era m d = doe).
+  { unfold doe_of. cbv zeta. fold yoe. subst mm.
+    rewrite !Z.quot_div_nonneg by (try destruct (2 <? m); lia). unfold doe. lia. }
+  rewrite Edoe in HDe. rewrite HDe in HD |- *.
+  clear Edoe HDe Eera. clearbody doe yoe.
+  unfold cdiv. change (146097 =? 0) with false. cbv iota.
+  change (tmax I64) with 9223372036854775807. change (tmin I64) with (-9223372036854775808).
+  rewrite (arith_fits I64 (Z.quot 9223372036854775807 146097)) by (vm_compute; reflexivity). rewrite bind_ok.
+  rewrite (arith_fits I64 (Z.quot (-9223372036854775808) 146097)) by (vm_compute; reflexivity). rewrite bind_ok.
+  change (Z.quot 9223372036854775807 146097) with 63131837319416. change (Z.quot (-9223372036854775808) 146097) with (-63131837319416).
+  replace ((63131837319416 <? era) || (era <? -63131837319416)) with false by lia.
   rewrite (cast_fits I32 doe) by fits_side.
   rewrite arith_fits by fits_side. rewrite bind_ok.
   rewrite arith_fits by fits_side. rewrite bind_ok.
-  f_equal. unfold doe_of. cbv zeta. fold yoe. subst mm.
-  rewrite !Z.quot_div_nonneg by (try destruct (2 <? m); lia).
-  unfold doe. lia.
+  rewrite arith_fits by fits_side. rewrite bind_ok.
+  replace ((doe - 719468 <? 0) && (era * 146097 <? -9223372036854775808 - (doe - 719468))) with false by lia.
+  rewrite arith_fits by fits_side. rewrite bind_ok. reflexivity.
 Qed.
 
 Lemma tp_of_parts_unfold P R u :
@@ -88,12 +105,22 @@ Lemma tp_of_parts_unfold P R u :
     let D := pty P R in
     h1 <- arith I64 (u_hour u * 3600) ;; m1 <- arith I64 (u_min u * 60) ;;
     t1 <- arith I64 (h1 + m1) ;; time <- arith I64 (t1 + u_sec u) ;;
-    tp <- safe_add_tp D 0 SecT time ;;
-    tp <- (match u_frac u with
-           | Some ns => r <- dround NsT D ns ;; safe_add_tp D tp D r
-           | None => Ok tp
-           end) ;;
-    safe_add_tp D tp (mkD I64 86400 1) days).
+    if 0 <=? days then
+      tp <- safe_add_tp D 0 SecT time ;;
+      tp <- (match u_frac u with
+             | Some ns => r <- dround NsT D ns ;; safe_add_tp D tp D r
+             | None => Ok tp
+             end) ;;
+      safe_add_tp D tp (mkD I64 86400 1) days
+    else
+      d1 <- arith I64 (days + 1) ;;
+      tp <- safe_add_tp D 0 (mkD I64 86400 1) d1 ;;
+      tp <- (match u_frac u with
+             | Some ns => r <- dround NsT D ns ;; safe_add_tp D tp D r
+             | None => Ok tp
+             end) ;;
+      back <- arith I64 (time - 86400) ;;
+      safe_add_tp D tp SecT back).
 Proof. reflexivity. Qed.
 
 Lemma prec_facts P :
@@ -127,8 +154,6 @@ Proof.
   - destruct Hn; subst n; lia.
   - lia.
   - apply simple_ratio_prec; exact Hn.
-  - intros (_ & H & _). discriminate H.
-  - intros (H & _). discriminate H.
   - unfold exact_cast. cbn [d_num d_den]. lia.
 Qed.
 
